@@ -106,6 +106,7 @@ HInit == /\ layout \in Layouts /\ behs \in BehSets /\ tail = <<>> /\ flavour \in
             THEN prefix \in UNION { {PlantOps(S), <<RunAll>> \o PlantOps(S), PlantOps(S) \o <<RunAll>>} : S \in PlantSets }
             ELSE prefix \in Prefixes
 HNext == /\ Len(tail) < MaxTail
+         /\ (Len(prefix) > 3 /\ Menu = "C08" => Len(tail) < 2)                  \* the long prefix (unhashable directory): tails of at most 2 steps
          /\ \E s \in TailMenu :
               /\ (Menu = "C02" => tail = <<>>)                                   \* exactly one faulty run, then the follow-up run
               /\ tail' = Append(tail, s)
